@@ -9,12 +9,18 @@ use serde_json::json;
 pub enum Atom {
     Single(i128),
     Range(Option<i128>, Option<i128>),
+    /// `a..<b`, `a<..b`, `a<..<b` (X.680 51.4: the endpoint itself is excluded): (a, b, lower open, upper open)
+    Open(i128, i128, bool, bool),
+    /// contained subtype: a reference to `Tc<k> ::= INTEGER (a..b)`, written `Tc<k>` or `INCLUDES Tc<k>`
+    Contained(i128, i128, bool),
 }
 impl Atom {
     fn set(&self) -> IvSet {
         match self {
             Atom::Single(v) => IvSet::single(Iv::new(Some(*v), Some(*v))),
             Atom::Range(l, h) => IvSet::single(Iv::new(*l, *h)),
+            Atom::Open(l, h, lo, ho) => IvSet::single(Iv::new(Some(*l + *lo as i128), Some(*h - *ho as i128))),
+            Atom::Contained(l, h, _) => IvSet::single(Iv::new(Some(*l), Some(*h))),
         }
     }
     fn shape(&self) -> &'static str {
@@ -24,6 +30,10 @@ impl Atom {
             Atom::Range(None, _) => "Rmin",
             Atom::Range(_, None) => "Rmax",
             Atom::Range(_, _) => "R",
+            Atom::Open(_, _, true, false) => "Rlo-open",
+            Atom::Open(_, _, false, _) => "Rhi-open",
+            Atom::Open(..) => "Rboth-open",
+            Atom::Contained(..) => "Contained",
         }
     }
     /// endpoint spelling: 0 literal, 1 value reference, 2 named number
@@ -42,6 +52,15 @@ impl Atom {
         match self {
             Atom::Single(v) => e(*v),
             Atom::Range(l, h) => format!("{}..{}", l.map_or("MIN".to_string(), &mut e), h.map_or("MAX".to_string(), &mut e)),
+            Atom::Open(l, h, lo, ho) => format!("{}{}..{}{}", e(*l), if *lo { "<" } else { "" }, if *ho { "<" } else { "" }, e(*h)),
+            Atom::Contained(l, h, kw) => {
+                *serial += 1;
+                let n = format!("Tc{}", *serial);
+                // the definition of the contained type travels with the names (value = lower bound, upper bound follows)
+                names.push((format!("#{n}"), *l));
+                names.push((format!("#{n}"), *h));
+                format!("{}{n}", if *kw { "INCLUDES " } else { "" })
+            }
         }
     }
 }
@@ -86,6 +105,29 @@ impl Expr {
         }
         u
     }
+    /// the PER-visible set if contained subtypes were *not* PER-visible (10.3.21: ignored in an intersection, a union with
+    /// one is not PER-visible at all); the oracle accepts either reading for "wider", see `judge`
+    fn per_visible_without_contained(&self) -> IvSet {
+        if self.all_except.is_some() {
+            return IvSet::all();
+        }
+        let mut u = IvSet::empty();
+        for t in &self.terms {
+            let mut i = IvSet::all();
+            let mut visible = false;
+            for (a, _) in t {
+                if !matches!(a, Atom::Contained(..)) {
+                    i = i.intersect(&a.set());
+                    visible = true;
+                }
+            }
+            if !visible {
+                return IvSet::all();
+            }
+            u = u.union(&i);
+        }
+        u
+    }
     fn shape(&self) -> String {
         if let Some(a) = &self.all_except {
             return format!("ALL EXCEPT {}", a.shape());
@@ -97,15 +139,22 @@ impl Expr {
             .join(" | ")
     }
     fn text(&self, sp: u8, words: bool, names: &mut Vec<(String, i128)>, serial: &mut u32) -> String {
+        self.text_with(sp, words, names, serial, &|a| a)
+    }
+    /// like `text`, every atom's spelling passed through `wrap`
+    fn text_with(&self, sp: u8, words: bool, names: &mut Vec<(String, i128)>, serial: &mut u32, wrap: &dyn Fn(String) -> String) -> String {
         if let Some(a) = &self.all_except {
-            return format!("ALL EXCEPT {}", a.text(sp, names, serial));
+            return format!("ALL EXCEPT {}", wrap(a.text(sp, names, serial)));
         }
         let (u, i) = if words { (" UNION ", " INTERSECTION ") } else { (" | ", " ^ ") };
         self.terms
             .iter()
-            .map(|t| t.iter().map(|(a, e)| format!("{}{}", a.text(sp, names, serial), e.as_ref().map_or(String::new(), |x| format!(" EXCEPT {}", x.text(sp, names, serial))))).collect::<Vec<_>>().join(i))
+            .map(|t| t.iter().map(|(a, e)| format!("{}{}", wrap(a.text(sp, names, serial)), e.as_ref().map_or(String::new(), |x| format!(" EXCEPT {}", wrap(x.text(sp, names, serial)))))).collect::<Vec<_>>().join(i))
             .collect::<Vec<_>>()
             .join(u)
+    }
+    fn atoms(&self) -> Vec<&Atom> {
+        self.all_except.iter().chain(self.terms.iter().flatten().flat_map(|(a, e)| std::iter::once(a).chain(e.iter()))).collect()
     }
     fn n_atoms(&self) -> usize {
         self.all_except.iter().count() + self.terms.iter().flatten().map(|(_, e)| 1 + e.iter().count()).sum::<usize>()
@@ -120,21 +169,25 @@ pub struct Case {
     /// 0 INTEGER assignment, 1 INTEGER component, 2 constrained reference assignment, 3 constrained reference component,
     /// 4 value-reference endpoints, 5 named-number endpoints, 6 OCTET STRING SIZE assignment, 7 BIT STRING SIZE component,
     /// 8 IA5String SIZE assignment, 9 SEQUENCE OF SIZE assignment, 10 SET OF SIZE component, 11 BMPString SIZE component
+    /// 15 constrained parent (INTEGER) assignment, 16 constrained parent component, 17 OCTET STRING with SIZE per operand,
+    /// 18 IA5String component with SIZE per operand, 19 constrained parent (OCTET STRING SIZE) assignment
     pub ctx: u8,
     pub words: bool,
+    /// constraint of the parent type in contexts 15, 16, 19
+    pub parent: Option<Atom>,
 }
-pub const CTX_NAMES: [&str; 15] = [
+pub const CTX_NAMES: [&str; 20] = [
     "INTEGER-assignment", "INTEGER-component", "constrained-reference-assignment", "constrained-reference-component", "value-reference-endpoints", "named-number-endpoints",
-    "OCTET-STRING-SIZE-assignment", "BIT-STRING-SIZE-component", "IA5String-SIZE-assignment", "SEQUENCE-OF-SIZE-assignment", "SET-OF-SIZE-component", "BMPString-SIZE-component", "named-numbers-of-referenced-type", "INTEGER-object-set-alternative", "OCTET-STRING-SIZE-object-set-alternative",
+    "OCTET-STRING-SIZE-assignment", "BIT-STRING-SIZE-component", "IA5String-SIZE-assignment", "SEQUENCE-OF-SIZE-assignment", "SET-OF-SIZE-component", "BMPString-SIZE-component", "named-numbers-of-referenced-type", "INTEGER-object-set-alternative", "OCTET-STRING-SIZE-object-set-alternative", "constrained-parent-assignment", "constrained-parent-component", "OCTET-STRING-SIZE-per-operand-assignment", "IA5String-SIZE-per-operand-component", "constrained-parent-SIZE-assignment",
 ];
 impl Case {
     fn is_size(&self) -> bool {
-        (6..=11).contains(&self.ctx) || self.ctx == 14
+        (6..=11).contains(&self.ctx) || matches!(self.ctx, 14 | 17 | 18 | 19)
     }
     fn key(&self) -> String {
         let mut n = vec![];
         let mut s = 0;
-        format!("{}|{}|{:?}|ctx{}", self.expr.text(0, self.words, &mut n, &mut s), self.ext, self.serial.as_ref().map(|(e, x)| (e.text(0, false, &mut vec![], &mut 0), *x)), self.ctx)
+        format!("{}|{}|{:?}|ctx{}{}", self.expr.text(0, self.words, &mut n, &mut s), self.ext, self.serial.as_ref().map(|(e, x)| (e.text(0, false, &mut vec![], &mut 0), *x)), self.ctx, self.parent.as_ref().map_or(String::new(), |p| format!("|parent {}", p.text(0, &mut vec![], &mut 0))))
     }
     fn shape_key(&self) -> String {
         format!("{}{}{}", self.expr.shape(), if self.ext { ",..." } else { "" }, self.serial.as_ref().map_or(String::new(), |(e, x)| format!(" )( {}{}", e.shape(), if *x { ",..." } else { "" })))
@@ -147,6 +200,10 @@ impl Case {
         if let Some((e, _)) = &self.serial {
             full = full.intersect(&e.full());
             pv = pv.intersect(&e.per_visible());
+        }
+        if let Some(p) = &self.parent {
+            full = full.intersect(&p.set());
+            pv = pv.intersect(&p.set());
         }
         (full, pv)
     }
@@ -162,7 +219,22 @@ impl Case {
         if let Some((e, x)) = &self.serial {
             c.push_str(&format!("({}{})", e.text(sp, false, &mut names, &mut serial), if *x { ", ..." } else { "" }));
         }
-        let sz = format!("(SIZE{c})");
+        // definitions of contained types (recorded by Atom::text as pairs of `#name` entries)
+        let defs: Vec<(String, i128)> = names.iter().filter(|(n, _)| n.starts_with('#')).cloned().collect();
+        names.retain(|(n, _)| !n.starts_with('#'));
+        for d in defs.chunks(2) {
+            src.push_str(&format!("{} ::= INTEGER ({}..{})\n", &d[0].0[1..], d[0].1, d[1].1));
+        }
+        let mut sz = format!("(SIZE{c})");
+        if matches!(self.ctx, 17 | 18) {
+            // SIZE written per operand: `(SIZE (a) | SIZE (b))` instead of `(SIZE (a | b))`
+            let mut nn = vec![];
+            let mut ss = 0;
+            sz = format!("({}{})", self.expr.text_with(0, self.words, &mut nn, &mut ss, &|a| format!("SIZE ({a})")), if self.ext { ", ..." } else { "" });
+            if let Some((e, x)) = &self.serial {
+                sz.push_str(&format!("({}{})", e.text_with(0, false, &mut nn, &mut ss, &|a| format!("SIZE ({a})")), if *x { ", ..." } else { "" }));
+            }
+        }
         match self.ctx {
             0 => {
                 src.push_str(&format!("Tq{n} ::= INTEGER {c}\n"));
@@ -214,8 +286,27 @@ impl Case {
                 src.push_str(&format!("Sq{n} CLQ ::= {{ {{ {ty} IDENTIFIED BY 0 }} }}\nHq{n} ::= SEQUENCE {{ id CLQ.&id ({{Sq{n}}}), val CLQ.&Type ({{Sq{n}}}{{@id}}) }}\n"));
                 (format!("Inner_Sq{n}_Type_0"), None)
             }
-            6 => {
+            6 | 17 => {
                 src.push_str(&format!("Tq{n} ::= OCTET STRING {sz}\n"));
+                (format!("Tq{n}"), None)
+            }
+            18 => {
+                src.push_str(&format!("Tq{n} ::= SEQUENCE {{ fq1 IA5String {sz} }}\n"));
+                (format!("Tq{n}"), Some("fq1".into()))
+            }
+            15 => {
+                let p = self.parent.as_ref().expect("parent");
+                src.push_str(&format!("Tp{n} ::= INTEGER ({})\nTq{n} ::= Tp{n} {c}\n", p.text(0, &mut vec![], &mut 0)));
+                (format!("Tq{n}"), None)
+            }
+            16 => {
+                let p = self.parent.as_ref().expect("parent");
+                src.push_str(&format!("Tp{n} ::= INTEGER ({})\nTq{n} ::= SEQUENCE {{ fq1 Tp{n} {c} }}\n", p.text(0, &mut vec![], &mut 0)));
+                (format!("Tq{n}"), Some("fq1".into()))
+            }
+            19 => {
+                let p = self.parent.as_ref().expect("parent");
+                src.push_str(&format!("Tp{n} ::= OCTET STRING (SIZE ({}))\nTq{n} ::= Tp{n} {sz}\n", p.text(0, &mut vec![], &mut 0)));
                 (format!("Tq{n}"), None)
             }
             7 => {
@@ -262,6 +353,29 @@ fn parse_range(s: &str) -> Option<Iv> {
 
 /// observed bound for a case: Some((interval, extensible)) or None when no annotation is attached
 fn observe(m: &Module, case: &Case, item: &str, field: &Option<String>) -> Result<Option<(Iv, bool)>, String> {
+    let own = observe_own(m, case, item, field)?;
+    if case.parent.is_none() {
+        return Ok(own);
+    }
+    // constrained parent: the rasn derives intersect a delegate's / field's constraints with those of the inner type
+    // (`<Inner as AsnType>::CONSTRAINTS.intersect(..)`), so the bound in force is the emitted one composed with the bound
+    // of the referenced Rust type
+    let which = if case.is_size() { "size" } else { "value" };
+    let it = m.find(item).ok_or("item missing")?;
+    let inner_ty = match (&it.kind, field) {
+        (Kind::Struct { fields, .. }, Some(f)) => fields.iter().find(|x| &x.name == f).map(|x| x.ty.clone()),
+        (Kind::Struct { fields, tuple: true }, None) => fields.first().map(|x| x.ty.clone()),
+        _ => None,
+    };
+    let parent = inner_ty.as_deref().and_then(|t| m.find(t)).and_then(|p| p.attrs.range(which)).and_then(|(r, x)| parse_range(&r).map(|iv| (iv, x)));
+    Ok(match (own, parent) {
+        (Some((a, x)), Some((b, _))) => Some((a.intersect(&b), x)),
+        (None, Some((b, _))) => Some((b, false)),
+        (o, None) => o,
+    })
+}
+
+fn observe_own(m: &Module, case: &Case, item: &str, field: &Option<String>) -> Result<Option<(Iv, bool)>, String> {
     let which = if case.is_size() { "size" } else { "value" };
     let it = m.find(item).ok_or_else(|| format!("item {item} missing"))?;
     let from_attrs = |a: &proj::Attrs| -> Result<Option<(Iv, bool)>, String> {
@@ -312,6 +426,30 @@ fn observe(m: &Module, case: &Case, item: &str, field: &Option<String>) -> Resul
     }
 }
 
+/// hull of the PER-visible set under the reading "contained subtypes are not PER-visible" (None: the case has none)
+fn alt_hull(case: &Case, base: Iv) -> Option<Iv> {
+    let has_contained = case.expr.atoms().iter().any(|a| matches!(a, Atom::Contained(..))) || case.serial.as_ref().is_some_and(|(e, _)| e.atoms().iter().any(|a| matches!(a, Atom::Contained(..))));
+    if !has_contained {
+        return None;
+    }
+    let mut pv2 = case.expr.per_visible_without_contained().intersect(&IvSet::single(base));
+    if let Some((e, _)) = &case.serial {
+        pv2 = pv2.intersect(&e.per_visible_without_contained());
+    }
+    Some(pv2.hull().unwrap_or(base))
+}
+
+/// the same case with every open range end closed (what the pinned tree's parser makes of `a..<b`)
+fn closed_variant(case: &Case) -> Option<Case> {
+    let close = |a: &Atom| match a {
+        Atom::Open(l, h, _, _) => Atom::Range(Some(*l), Some(*h)),
+        o => o.clone(),
+    };
+    let fix = |e: &Expr| Expr { terms: e.terms.iter().map(|t| t.iter().map(|(a, x)| (close(a), x.as_ref().map(close))).collect()).collect(), all_except: e.all_except.as_ref().map(close) };
+    let has_open = case.expr.atoms().iter().any(|a| matches!(a, Atom::Open(..))) || case.serial.as_ref().is_some_and(|(e, _)| e.atoms().iter().any(|a| matches!(a, Atom::Open(..))));
+    has_open.then(|| Case { expr: fix(&case.expr), serial: case.serial.as_ref().map(|(e, x)| (fix(e), *x)), ..case.clone() })
+}
+
 fn judge(case: &Case, obs: &Option<(Iv, bool)>) -> Vec<(String, String)> {
     let mut out = vec![];
     let (full, pv) = case.sets();
@@ -324,7 +462,12 @@ fn judge(case: &Case, obs: &Option<(Iv, bool)>) -> Vec<(String, String)> {
         out.push(("excludes-permitted".to_string(), format!("emitted {} excludes values of the permitted set {}", got.show(), full.show())));
     } else if got_n != hull {
         let wider = IvSet::single(hull).subset_of_iv(&got_n);
+        // contained subtypes: whether X.691 counts them as PER-visible is not asserted here; a bound that is right under
+        // either reading is accepted (exclusion of a permitted value, above, is judged regardless)
+        let alt_ok = alt_hull(case, base) == Some(got_n);
+        if !alt_ok {
         out.push((if wider { "wider-than-per-visible" } else { "tighter-than-per-visible" }.to_string(), format!("emitted {}, PER-visible effective constraint is {}", got.show(), hull.show())));
+        }
     }
     // extensibility: judged when unambiguous (single constraint, or the last one of a serial chain decides per X.680 50.8)
     let want_ext = match &case.serial {
@@ -341,7 +484,7 @@ fn judge(case: &Case, obs: &Option<(Iv, bool)>) -> Vec<(String, String)> {
         // pinned tree for every INTEGER case and for SIZE expressions containing EXCEPT / ALL EXCEPT; a SIZE built from
         // ranges and unions only (e.g. `SIZE (0..MAX, ...)`) does get `size("0..", extensible)` and is judged
         let has_except = case.expr.all_except.is_some() || case.expr.terms.iter().flatten().any(|(_, e)| e.is_some()) || case.serial.as_ref().is_some_and(|(e, _)| e.all_except.is_some() || e.terms.iter().flatten().any(|(_, x)| x.is_some()));
-        let no_annotation_for_full_range = obs.is_none() && want_ext && hull == base && (!case.is_size() || has_except);
+        let no_annotation_for_full_range = obs.is_none() && want_ext && (hull == base || alt_hull(case, base) == Some(base)) && (!case.is_size() || has_except);
         if got_ext != want_ext && !no_annotation_for_full_range {
             out.push(("extensible-flag".to_string(), format!("extensible={got_ext}, constraint {} an extension marker", if want_ext { "carries" } else { "has no" })));
         }
@@ -394,17 +537,29 @@ fn check_batch(cases: &[Case], rep: &mut Report) {
         };
         rep.count("bounds_compared", 1);
         rep.count(&format!("bounds_compared[{}]", CTX_NAMES[c.ctx as usize]), 1);
+        let mut verdicts = judge(c, &obs);
+        if c.is_size() {
+            // a size bound belongs in `size(..)`; a `value(..)` on a string / collection type constrains nothing
+            let it = m.find(item);
+            let attrs = match (it.map(|i| &i.kind), field) {
+                (Some(Kind::Struct { fields, .. }), Some(f)) => fields.iter().find(|x| &x.name == f).map(|x| &x.attrs),
+                _ => it.map(|i| &i.attrs),
+            };
+            if let Some((r, _)) = attrs.and_then(|a| a.range("value")) {
+                verdicts.push(("size-bound-emitted-as-value".to_string(), format!("value(\"{r}\") attached to a type that has no integer value; the size bound belongs in size(..)")));
+            }
+        }
         rep.nontrivial.insert(hash_str(&c.key()));
         rep.note("expression_shapes", c.shape_key());
         if rep.samples.len() < 5 && rep.evaluations % 3001 == 17 {
             let (f, p) = c.sets();
             rep.sample(json!({"constraint": c.key(), "permitted": f.show(), "per_visible": p.show(), "observed": obs.map(|o| (o.0.show(), o.1))}));
         }
-        for (kind, detail) in judge(c, &obs) {
+        for (kind, detail) in verdicts {
             let ctxc = match c.ctx {
                 0 | 4 | 5 => "assignment",
                 1 => "component",
-                2 | 3 | 12 => "constrained-reference",
+                2 | 3 | 12 | 15 | 16 | 19 => "constrained-reference",
                 13 | 14 => "object-set-alternative",
                 _ => "size",
             };
@@ -417,8 +572,11 @@ fn check_batch(cases: &[Case], rep: &mut Report) {
                 "named-number-endpoints-of-own-type".to_string()
             } else if n_ops >= 2 {
                 "set-operations>=2".to_string()
-            } else if c.serial.is_some() && has_union {
+            } else if (c.serial.is_some() || c.parent.is_some()) && has_union {
                 "serial-after-union".to_string()
+            } else if kind == "wider-than-per-visible" && closed_variant(c).is_some_and(|cv| judge(&cv, &obs).is_empty()) {
+                // exactly the bound of the closed range: the `<` was read and dropped
+                "open-range-end-ignored".to_string()
             } else if has_except && c.ext && kind == "extensible-flag" {
                 "except-with-marker".to_string()
             } else {
@@ -501,10 +659,10 @@ fn random_expr(rng: &mut Rng, at: &[Atom], max_atoms: usize) -> Expr {
 pub fn run(ctx: &Ctx) -> Report {
     let mut rep = Report::new(
         "exploration",
-        "subtype expressions as unions of intersections of (atom [EXCEPT atom]) or ALL EXCEPT atom; atoms = single values, a..b, MIN..b, a..MAX, MIN..MAX over an endpoint alphabet; optional outer `, ...`; optional second serial constraint; spelled with | ^ or UNION INTERSECTION; endpoints as literals, value references or named numbers; on INTEGER (assignment, component, constrained reference) and via SIZE on OCTET STRING, BIT STRING, IA5String, BMPString, SEQUENCE OF, SET OF. EXHAUSTIVE for <= 2 atoms over the 5-point alphabet {-300,-1,0,5,300} (SIZE: {0,1,5,255,300}) in the INTEGER-assignment, INTEGER-component and OCTET-STRING-SIZE contexts; seeded random for 3..4 atoms, the 7-point alphabet, serial constraints and the remaining contexts. Oracle: emitted value()/size()/Fixed*String<n> = hull of the PER-visible set (EXCEPT ignored, ^ intersects, | unites), never excluding a permitted value (exact set semantics), extensible flag = marker. Expressions whose exact set is empty are skipped; cases the compiler rejects or warns about are not claims. Non-trivial = bound compared; distinct by constraint text and context.",
+        "subtype expressions as unions of intersections of (atom [EXCEPT atom]) or ALL EXCEPT atom; atoms = single values, a..b, MIN..b, a..MAX, MIN..MAX over an endpoint alphabet; optional outer `, ...`; optional second serial constraint; spelled with | ^ or UNION INTERSECTION; endpoints as literals, value references or named numbers; on INTEGER (assignment, component, constrained reference) and via SIZE on OCTET STRING, BIT STRING, IA5String, BMPString, SEQUENCE OF, SET OF. EXHAUSTIVE for <= 2 atoms over the 5-point alphabet {-300,-1,0,5,300} (SIZE: {0,1,5,255,300}) in the INTEGER-assignment, INTEGER-component and OCTET-STRING-SIZE contexts; seeded random for 3..4 atoms, the 7-point alphabet, serial constraints and the remaining contexts. Oracle: emitted value()/size()/Fixed*String<n> = hull of the PER-visible set (EXCEPT ignored, ^ intersects, | unites), never excluding a permitted value (exact set semantics), extensible flag = marker. Added spellings (enumerated over the 5-point alphabet): open range ends `a..<b`, `a<..b`, `a<..<b` (the endpoint is excluded); contained subtypes `Tc` / `INCLUDES Tc` as operands of |, ^, EXCEPT and in serial position (judged for exclusion of permitted values under every reading, for width under either reading of their PER-visibility); constrained parent types `Tp ::= INTEGER (p)`, `Tq ::= Tp (c)` / component `f Tp (c)` / `OCTET STRING (SIZE (p))` parent, where the bound in force is the emitted annotation intersected with the parent item's annotation, as the rasn derives compose them; SIZE written per operand `(SIZE (a) | SIZE (b))`, `(SIZE (a) EXCEPT SIZE (b))`, where additionally a value(..) annotation on a type that has no integer value is a violation. Expressions whose exact set is empty are skipped; cases the compiler rejects or warns about are not claims. Non-trivial = bound compared; distinct by constraint text and context.",
     );
-    rep.must_observe = vec!["bounds_compared".into(), "bounds_compared[INTEGER-object-set-alternative]".into(), "bounds_compared[INTEGER-component]".into(), "bounds_compared[OCTET-STRING-SIZE-assignment]".into()];
-    rep.assumptions = vec!["X.691 10.3 as implemented in c04.rs (Expr::per_visible) over the brute-force-tested interval sets of iv.rs".into(), "parenthesised sub-expressions and open ranges (`<`) are rejected by the compiler's parser and therefore not claims".into()];
+    rep.must_observe = vec!["bounds_compared".into(), "bounds_compared[INTEGER-object-set-alternative]".into(), "bounds_compared[INTEGER-component]".into(), "bounds_compared[OCTET-STRING-SIZE-assignment]".into(), "bounds_compared[constrained-parent-assignment]".into(), "bounds_compared[constrained-parent-component]".into(), "bounds_compared[OCTET-STRING-SIZE-per-operand-assignment]".into(), "bounds_compared[IA5String-SIZE-per-operand-component]".into()];
+    rep.assumptions = vec!["X.691 10.3 as implemented in c04.rs (Expr::per_visible) over the brute-force-tested interval sets of iv.rs".into(), "parenthesised sub-expressions and an open lower end (`a<..b`) are rejected by the compiler's parser and therefore not claims".into(), "rasn 0.27 derives intersect the constraints of a delegate / field with those of its inner type (asn_type.rs:105, config.rs:886), which is why a constrained parent's bound need not be repeated on the referencing item".into()];
     let e5: [i128; 5] = [-300, -1, 0, 5, 300];
     let s5: [i128; 5] = [0, 1, 5, 255, 300];
     let e7: [i128; 7] = [-300, -1, 0, 1, 5, 255, 300];
@@ -524,13 +682,13 @@ pub fn run(ctx: &Ctx) -> Report {
     for e in two_operand(&at) {
         for ext in [false, true] {
             for c in [0u8, 1] {
-                cases.push(Case { expr: e.clone(), ext, serial: None, ctx: c, words: false });
+                cases.push(Case { expr: e.clone(), ext, serial: None, ctx: c, words: false, parent: None });
             }
         }
     }
     for e in two_operand(&sat) {
         for ext in [false, true] {
-            cases.push(Case { expr: e.clone(), ext, serial: None, ctx: 6, words: false });
+            cases.push(Case { expr: e.clone(), ext, serial: None, ctx: 6, words: false, parent: None });
         }
     }
     // alternatives of an information object set (generator path of its own: delegate structs built in
@@ -538,18 +696,94 @@ pub fn run(ctx: &Ctx) -> Report {
     let mut os_cases: Vec<Case> = vec![];
     for e in two_operand(&at).into_iter().step_by(3) {
         for ext in [false, true] {
-            os_cases.push(Case { expr: e.clone(), ext, serial: None, ctx: 13, words: false });
+            os_cases.push(Case { expr: e.clone(), ext, serial: None, ctx: 13, words: false, parent: None });
         }
     }
     for e in two_operand(&sat).into_iter().step_by(3) {
         for ext in [false, true] {
-            os_cases.push(Case { expr: e.clone(), ext, serial: None, ctx: 14, words: false });
+            os_cases.push(Case { expr: e.clone(), ext, serial: None, ctx: 14, words: false, parent: None });
         }
     }
     // (EXCEPT together with a marker is a known finding of the folding itself, listed for the other contexts)
     os_cases.retain(|c| !c.sets().0.is_empty() && !(c.ext && (c.expr.all_except.is_some() || c.expr.terms.iter().flatten().any(|(_, e)| e.is_some()))));
     rep.exhaustive = Some(true);
     rep.extra.insert("exhaustive_two_operand_cases".into(), json!(cases.len()));
+    // --- spellings of the quantifier that the atom alphabet above does not contain -------------------------------------
+    let one = |a: Atom| Expr { terms: vec![vec![(a, None)]], all_except: None };
+    let un = |a: Atom, b: Atom| Expr { terms: vec![vec![(a, None)], vec![(b, None)]], all_except: None };
+    let is = |a: Atom, b: Atom| Expr { terms: vec![vec![(a, None), (b, None)]], all_except: None };
+    let ex = |a: Atom, b: Atom| Expr { terms: vec![vec![(a, Some(b))]], all_except: None };
+    let mut extra: Vec<Case> = vec![];
+    // (a) open range ends
+    for (i, a) in e5.iter().enumerate() {
+        for b in &e5[i + 1..] {
+            if b - a < 3 {
+                continue;
+            }
+            for (lo, ho) in [(false, true), (true, false), (true, true)] {
+                let o = Atom::Open(*a, *b, lo, ho);
+                for ext in [false, true] {
+                    for c in [0u8, 1] {
+                        extra.push(Case { expr: one(o.clone()), ext, serial: None, ctx: c, words: false, parent: None });
+                    }
+                }
+                extra.push(Case { expr: un(o.clone(), Atom::Single(1000)), ext: false, serial: None, ctx: 0, words: false, parent: None });
+                extra.push(Case { expr: is(Atom::Range(Some(-1000), Some(1000)), o.clone()), ext: false, serial: None, ctx: 1, words: false, parent: None });
+                if *a >= 0 {
+                    extra.push(Case { expr: one(o.clone()), ext: false, serial: None, ctx: 6, words: false, parent: None });
+                }
+            }
+        }
+    }
+    // (b) contained subtypes as operands
+    for (i, a) in e5.iter().enumerate() {
+        for b in &e5[i + 1..] {
+            for kw in [false, true] {
+                let t = Atom::Contained(*a, *b, kw);
+                let r = Atom::Range(Some(-1), Some(5));
+                let far = Atom::Range(Some(1000), Some(2000));
+                for c in [0u8, 1] {
+                    for ext in [false, true] {
+                        extra.push(Case { expr: one(t.clone()), ext, serial: None, ctx: c, words: false, parent: None });
+                    }
+                    extra.push(Case { expr: un(t.clone(), far.clone()), ext: false, serial: None, ctx: c, words: false, parent: None });
+                    extra.push(Case { expr: un(far.clone(), t.clone()), ext: false, serial: None, ctx: c, words: false, parent: None });
+                    extra.push(Case { expr: is(t.clone(), r.clone()), ext: false, serial: None, ctx: c, words: false, parent: None });
+                    extra.push(Case { expr: is(r.clone(), t.clone()), ext: false, serial: None, ctx: c, words: false, parent: None });
+                    extra.push(Case { expr: ex(Atom::Range(Some(-1000), Some(1000)), t.clone()), ext: false, serial: None, ctx: c, words: false, parent: None });
+                    extra.push(Case { expr: un(t.clone(), Atom::Contained(1000, 2000, kw)), ext: false, serial: None, ctx: c, words: false, parent: None });
+                    extra.push(Case { expr: one(Atom::Range(Some(-1000), Some(1000))), ext: false, serial: Some((one(t.clone()), false)), ctx: c, words: false, parent: None });
+                    extra.push(Case { expr: one(t.clone()), ext: false, serial: Some((one(Atom::Range(Some(-1000), Some(1000))), false)), ctx: c, words: false, parent: None });
+                }
+            }
+        }
+    }
+    // (c) constrained parent types: the bound in force is the composition (see `observe`)
+    let parents: Vec<Atom> = vec![Atom::Range(Some(-300), Some(300)), Atom::Range(Some(-1), Some(5)), Atom::Range(Some(0), None), Atom::Range(None, Some(5)), Atom::Range(Some(-300), Some(-1)), Atom::Range(Some(0), Some(255))];
+    for p in &parents {
+        for e in two_operand(&at).into_iter().step_by(7) {
+            for c in [15u8, 16] {
+                extra.push(Case { expr: e.clone(), ext: false, serial: None, ctx: c, words: false, parent: Some(p.clone()) });
+            }
+        }
+    }
+    for p in [Atom::Range(Some(0), Some(300)), Atom::Range(Some(1), Some(5)), Atom::Range(Some(5), None), Atom::Range(Some(1), Some(255))] {
+        for e in two_operand(&sat).into_iter().step_by(5) {
+            extra.push(Case { expr: e.clone(), ext: false, serial: None, ctx: 19, words: false, parent: Some(p.clone()) });
+        }
+    }
+    // (d) SIZE written per operand
+    for e in two_operand(&sat) {
+        if e.n_atoms() < 2 {
+            continue;
+        }
+        for ext in [false, true] {
+            extra.push(Case { expr: e.clone(), ext, serial: None, ctx: 17, words: false, parent: None });
+        }
+        extra.push(Case { expr: e.clone(), ext: false, serial: None, ctx: 18, words: false, parent: None });
+    }
+    rep.extra.insert("extra_spelling_cases".into(), json!(extra.len()));
+    cases.extend(extra);
     let at7 = atoms(&e7, false);
     let sat7 = atoms(&[0, 1, 2, 5, 255, 256, 300], true);
     let nrand = ctx.pick(40_000u64, 800_000);
@@ -559,7 +793,7 @@ pub fn run(ctx: &Ctx) -> Report {
         let pool = if (6..=11).contains(&c) { &sat7 } else { &at7 };
         let expr = random_expr(&mut rng, pool, 4);
         let serial = if rng.chance(1, 5) { Some((random_expr(&mut rng, pool, 1), rng.chance(1, 4))) } else { None };
-        cases.push(Case { expr, ext: rng.chance(1, 4), serial, ctx: c, words: rng.chance(1, 6) });
+        cases.push(Case { expr, ext: rng.chance(1, 4), serial, ctx: c, words: rng.chance(1, 6), parent: None });
     }
     // illegal (empty) constraints are not generated
     cases.retain(|c| !c.sets().0.is_empty() && c.expr.n_atoms() <= 4);
